@@ -18,7 +18,7 @@ From ONL Require Import Elem.Packet Elem.StoreQ Elem.HeapList Elem.WFQServer Ele
   Elem.SchedBase Elem.SchedBaseProofs Elem.SP Elem.Port Elem.PortProofs Route.Demux Route.DemuxProofs
   Elem.Iface Elem.Compose Elem.ComposePar Elem.ComposeHands Elem.ComposeFan Elem.ComposeSwitch
   Elem.ComposeCast Route.Hub Route.HubProofs Elem.AdaptPort Elem.AdaptSched Elem.AdaptSrv Elem.AdaptDRR Elem.AdaptSwitch
-  Elem.AdaptCast Elem.AdaptSwitchExample Elem.AdaptCastExample.
+  Elem.AdaptCast Elem.ComposeRandom Elem.AdaptSwitchExample Elem.AdaptCastExample Elem.ComposeRandomExample.
 Import ListNotations.
 Local Open Scope Q_scope.
 
@@ -116,6 +116,43 @@ Theorem C08_route_fswitch_branches : forall (c : fair_cfg) (buf : option Z) (eid
 Proof. exact fswitch_branch_view. Qed.
 Print Assumptions C08_route_fswitch_branches.
 
+(* ================= RandomDemux: the route comes from an oracle ================= *)
+(* random.choices with one draw u, transcribed (cumulative weights, draw scaled by the total, bisect clamped to n - 1) and compared
+   with CPython's on every run: the index is in range for EVERY weight list and draw (put() cannot raise IndexError, whatever the
+   weights sum to), and with non-negative weights, a positive total and 0 <= u < 1 the chosen output has a positive weight *)
+Theorem C08_route_choices_index : forall (ws : list Q) (u : Q),
+  (ws <> [] -> (choices_index ws u < length ws)%nat) /\
+  (Forall (fun w => 0 <= w) ws -> 0 < qsum ws -> 0 <= u -> u < 1 -> 0 < nth (choices_index ws u) ws 0).
+Proof. exact (fun ws u => conj (choices_index_lt ws u) (choices_index_weight ws u)). Qed.
+Print Assumptions C08_route_choices_index.
+
+(* the demux with its choices given by an oracle c (any function of the packet; for pairwise distinct packets every tape of choices
+   is one: C08_route_tape_choice): conservation, drained at quiescence, clock and stage numbering, for EVERY oracle *)
+Theorem C08_route_rdemux_laws : forall (c : pkt -> nat) (t0 : Q) (Es : list elem),
+  (Forall conserves Es -> conserves (rdemux_elem c t0 Es)) /\
+  (Forall conserves Es -> Forall drained Es -> drained (rdemux_elem c t0 Es)) /\
+  (Forall timed Es -> timed (rdemux_elem c t0 Es)) /\ (Forall tagged Es -> tagged (rdemux_elem c t0 Es)).
+Proof. exact (fun c t0 Es => conj (rdemux_conserves c t0 Es) (conj (rdemux_drained c t0 Es) (conj (rdemux_timed c t0 Es) (rdemux_tagged c t0 Es)))). Qed.
+Print Assumptions C08_route_rdemux_laws.
+
+(* EXACTLY ONE OUTPUT, for every oracle and every admissible execution: the device behind output i runs as it would alone and was
+   given exactly the packets the oracle sent to i, each once, in the order in which they were put in; what it delivers is
+   delivered by the demux element; per-flow order holds per output whenever the device behind it keeps it *)
+Theorem C08_route_rdemux_output : forall (c : pkt -> nat) (t0 : Q) (Es : list elem) acts s tr,
+  run (rdemux_elem c t0 Es) (init (rdemux_elem c t0 Es)) acts = Some (s, tr) ->
+  forall i E, nth_error Es i = Some E ->
+  exists sE acts_i tr_i, bank_has t0 Es c (snd s) i E sE /\ run E (init E) acts_i = Some (sE, tr_i) /\
+    puts tr_i = filter (fun p => Nat.eqb (c p) i) (puts tr) /\ sublist (fwds tr_i) (fwds tr) /\
+    (forall f, flow_fifo E f ->
+       sublist (filter (on_flow f) (fwds tr_i)) (filter (on_flow f) (filter (fun p => Nat.eqb (c p) i) (puts tr)))).
+Proof. exact rdemux_output. Qed.
+Print Assumptions C08_route_rdemux_output.
+
+Theorem C08_route_tape_choice : forall (ps : list pkt) (tape : list nat),
+  NoDup (map uid ps) -> length tape = length ps -> map (tape_fun ps tape) ps = tape.
+Proof. exact tape_choice. Qed.
+Print Assumptions C08_route_tape_choice.
+
 (* ================= replicating elements: NSplitter and Hub ================= *)
 (* A splitter legitimately duplicates; its conservation law is per output.  Two elements side by side, a packet put into BOTH
    (when wa / wb say so): each side of ANY execution is an admissible execution of that element alone, given exactly its packets *)
@@ -191,3 +228,13 @@ Theorem C08_ex_hub_run :
     held hub_E s = [] /\ urgent hub_E s = false /\ deadline hub_E s = None.
 Proof. exact hub_run. Qed.
 Print Assumptions C08_ex_hub_run.
+
+(* RandomDemux with relative weights [1/4, 1/4] (sum < 1) and scripted draws, probs reassigned before the fourth packet *)
+Theorem C08_ex_randdemux_run :
+  map (choices_index [1 # 4; 1 # 4]) [7 # 8; 1 # 8; 1 # 2] = [1; 0; 1]%nat /\ choices_index [0; 1] (3 # 8) = 1%nat /\
+  exists s tr, run rdx_E (init rdx_E) rdx_acts = Some (s, tr) /\
+    ruids (puts tr) = [0; 1; 2; 3]%nat /\ ruids (fwds tr) = [0; 2; 3; 1]%nat /\ ruids (drops tr) = [] /\
+    ruids (hands 0 tr) = [0; 1; 2; 3]%nat /\ precv (fst (snd s)) = 1%Z /\ precv (fst (snd (snd s))) = 3%Z /\
+    held rdx_E s = [] /\ urgent rdx_E s = false /\ deadline rdx_E s = None.
+Proof. exact rdx_run. Qed.
+Print Assumptions C08_ex_randdemux_run.
